@@ -841,6 +841,46 @@ func kindTestOfExpr(cond ssa.Value, root ssa.Value, chain string, depth int) boo
 	}
 	switch x := cond.(type) {
 	case *ssa.BinOp:
+		// err != nil where err is the result of a package helper that fails exactly when the kind of
+		// <its argument><chain'> is not the expected one: the same test, written as a function
+		for _, pair := range [][2]ssa.Value{{x.X, x.Y}, {x.Y, x.X}} {
+			if k, isK := pair[1].(*ssa.Const); !isK || !k.IsNil() {
+				continue
+			}
+			for _, src := range append(traceSources(pair[0]), pair[0]) {
+				hc, ok := src.(*ssa.Call)
+				if !ok {
+					continue
+				}
+				h := hc.Call.StaticCallee()
+				if h == nil || curCtx == nil || !curCtx.P.InPkg(h) || h.Signature.Results().Len() != 1 || !isErrorType(h.Signature.Results().At(0).Type()) {
+					continue
+				}
+				for pi, p := range h.Params {
+					if pi >= len(hc.Call.Args) {
+						continue
+					}
+					argRoot, argChain := typeExpr(hc.Call.Args[pi])
+					if !(argRoot == root || sharesSource(argRoot, root)) || !strings.HasPrefix(chain, argChain) {
+						continue
+					}
+					rest := strings.TrimPrefix(chain, argChain)
+					tested := false
+					core.EachInstr(h, func(i ssa.Instruction) {
+						if ifi, isIf := i.(*ssa.If); isIf && kindTestOfExpr(ifi.Cond, p, rest, depth-1) {
+							for _, succ := range ifi.Block().Succs {
+								if blockReturnsErrorLocal(succ) || blockReturnsErrorDeepLocal(succ) {
+									tested = true
+								}
+							}
+						}
+					})
+					if tested {
+						return true
+					}
+				}
+			}
+		}
 		for _, pair := range [][2]ssa.Value{{x.X, x.Y}, {x.Y, x.X}} {
 			kc, ok := pair[0].(*ssa.Call)
 			if !ok || !kc.Call.IsInvoke() || kc.Call.Method.Name() != "Kind" {
